@@ -1106,6 +1106,66 @@ def _text_gate_check(R, fmt, w):
             detail={'gate': _fmt_atoms(gate_atoms(w.fn, w.node))})
 
 
+OBJECT_CLASSES = ('osmium::OSMObject', 'osmium::OSMEntity', 'osmium::Node', 'osmium::Way', 'osmium::Relation')
+
+
+def _own_attribute_guard_check(R, fmt, w):
+    """The reader restores every attribute of an object independently, so the writer may make the presence of a field depend only on
+    its own metadata option and on the attribute itself (`object.uid()` for uid, non-empty `object.user()` for user): a guard that
+    reads another attribute of the object drops the field for objects the reader would restore it for."""
+    from ..c01_util import entity_accessors
+    others = {}
+    n_obj = 0
+    for (c, s_, _b) in edge_guards(w.fn, w.node):
+        for x in w.fn.subtree(c):
+            n = w.fn.nodes[x]
+            if n.get('k') == 'call' and n.get('rcls') in OBJECT_CLASSES and 'q' in n:
+                nm = n['q'].rsplit('::', 1)[-1]
+                if nm in ('tags', 'nodes', 'members', 'type'):
+                    continue
+                n_obj += 1
+                if nm not in w.getters:
+                    others[nm] = w.fn.expr(c)
+    if n_obj == 0 or not (set(w.getters) - {'location', 'bounds'} or w.getters):
+        return
+    R.check(not others, 'write-guard-reads-own-attribute', '%s:%s@%s' % (fmt, w.fn.q, w.name), w.site,
+            "%s field '%s' (fed from %s) is written only if `%s`, which reads %s: an object for which that differs loses a field the reader "
+            'restores independently' % (fmt.upper(), w.name, sorted(w.getters), ' / '.join(sorted(set(others.values()))),
+                                         ', '.join(o + '()' for o in sorted(others))))
+
+
+def _strict_attribute_check(fb, R, U, key, w, rns):
+    """An attribute whose value the reader hands unconditionally to a parser that throws on the empty string must not be written
+    with a formatter that can yield the empty string, unless the write is guarded by the validity of that very value."""
+    strict = None
+    for rn in rns:
+        strict = strict or U.strict_value_parsers(fb, rn)
+    if strict is None:
+        return
+    for (f, vnode) in w.value_nodes:
+        weak = []
+        for x in f.subtree(vnode):
+            n = f.nodes[x]
+            if n.get('k') == 'call' and n.get('u') and (n.get('t') or '').replace('const ', '').startswith('std::basic_string'):
+                for g in fb.by_usr.get(n['u'], []):
+                    if g.has_cfg and U.may_return_empty_string(fb, g):
+                        weak.append(n)
+                    break
+        if not weak:
+            R.ok('xml-strict-attribute-never-empty', key, w.site, detail='formatter never yields an empty string; reader parses strictly at %s' % strict)
+            continue
+        # guarded by the validity of the same value?
+        guarded = False
+        for (c, s_, _b) in edge_guards(f, vnode):
+            acc = U.entity_accessors(f, c)
+            if s_ and acc and acc <= set(w.getters) | {'location', 'bounds'} and set(w.getters) & acc:
+                guarded = True
+        R.check(guarded, 'xml-strict-attribute-never-empty', key, w.site,
+                '%s="..." is written with %s(), which yields the empty string for an unset value, without testing the value first; the reader '
+                'hands the attribute unconditionally to a throwing parser (%s): the file the Writer produced is rejected'
+                % (w.name, weak[0]['q'].rsplit('::', 1)[-1], strict))
+
+
 def xml_rules(fb, R):
     from .. import c01_util as U
     fields, problems = U.xml_writer_fields(fb, (NS + 'XMLOutputBlock', NS + 'XMLOutputFormat'))
@@ -1129,6 +1189,7 @@ def xml_rules(fb, R):
             continue
         if not w.const:
             _text_gate_check(R, 'xml', w)
+            _own_attribute_guard_check(R, 'xml', w)
         for ctx_el in sorted(w.contexts):
             key = 'xml:%s@%s' % (ctx_el, w.name)
             if (ctx_el, w.name) in XML_DERIVED:
@@ -1146,6 +1207,8 @@ def xml_rules(fb, R):
                     R.check(w.value in acc, 'xml-constant-value-accepted', '%s=%s' % (key, w.value), w.site,
                             'the XML writer emits %s="%s" inside <%s>; the reader only knows the values %s for this attribute'
                             % (w.name, w.value, ctx_el, sorted(acc)))
+            if rns and not w.const and getattr(w, 'value_nodes', None):
+                _strict_attribute_check(fb, R, U, key, w, rns)
             if not rns or w.const:
                 continue
             setters = set()
@@ -1175,6 +1238,7 @@ def opl_rules(fb, R):
                     % (w.fn.q, w.name, kind, kind, ''.join(sorted(rd['cases'])), ''.join(sorted(c for c in rd['nested'] if c.isalpha()))))
             if not w.const:
                 _text_gate_check(R, 'opl', w)
+                _own_attribute_guard_check(R, 'opl', w)
             c = rd['cases'].get(w.name)
             if c is None or w.const or not w.getters:
                 continue
@@ -1422,7 +1486,7 @@ def writer_order_rules(fb, R):
     # ---- W2: an item that did not fit is appended only after the full buffer went out: from the entry of a catch handler no
     #          push_back into the pending buffer is reachable without passing a flush
     for (f, m) in bodies:
-        pushes = {c['id'] for c in f.all_nodes() if c.get('k') == 'call' and c.get('q') == 'osmium::memory::Buffer::push_back'
+        pushes = {c['id'] for c in f.all_nodes() if c.get('k') == 'call' and c.get('q') in ('osmium::memory::Buffer::push_back', 'osmium::memory::Buffer::add_item')
                   and c.get('recv') is not None and is_pending(f, c['recv']) and c['id'] in f.positions()}
         if not pushes or not f.catch_entry_blocks():
             continue
@@ -1434,6 +1498,25 @@ def writer_order_rules(fb, R):
         if reach:
             R.check(w is None, 'writer-full-buffer-flushed-before-retry', '%s#retry' % m.q, f.loc(sorted(pushes)[0]),
                     '%s appends the item again after buffer_is_full without flushing %s first: %s' % (m.q, pend[0]['name'], describe_path(f, w)))
+
+    # ---- W2b: whatever is put into the pending buffer is committed before the function returns (push_back = add_item + commit)
+    for (f, m) in bodies:
+        adds = [c for c in f.all_nodes() if c.get('k') == 'call' and c.get('q') in ('osmium::memory::Buffer::push_back', 'osmium::memory::Buffer::add_item')
+                and c.get('recv') is not None and is_pending(f, c['recv']) and c['id'] in f.positions()]
+        if not adds:
+            continue
+        commits = {c['id'] for c in f.all_nodes() if c.get('k') == 'call' and c.get('q') in ('osmium::memory::Buffer::commit', 'osmium::memory::Buffer::push_back')
+                   and c.get('recv') is not None and is_pending(f, c['recv'])}
+        bad = None
+        for c in adds:
+            if c['q'].endswith('::push_back'):
+                continue
+            w = path_search(f, c['id'], lambda x: isinstance(x, tuple) and x[0] == 'exit', lambda x: x in commits)
+            if w is not None:
+                bad = (c, w)
+        R.check(bad is None, 'writer-item-committed', '%s#item' % m.q, f.loc((bad[0] if bad else adds[0])['id']),
+                '%s adds the item to %s with add_item() and can return without commit(): the item is dropped by the next flush / close (%s)'
+                % (m.q, pend[0]['name'], describe_path(f, bad[1]) if bad else ''))
 
     # ---- W3: the pending items go out before the end-of-file marker
     n_end = 0
@@ -2020,6 +2103,9 @@ def run(ctx):
         ('writer-flush-before-foreign-buffer', 1),       # Writer::operator()(Buffer&&)
         ('writer-full-buffer-flushed-before-retry', 1),  # Writer::operator()(const Item&), buffer_is_full handler
         ('writer-pending-flushed-before-end', 1),        # Writer::do_close
+        ('writer-item-committed', 1),                    # Writer::operator()(const Item&)
+        ('write-guard-reads-own-attribute', 7),          # XML write_meta version/timestamp/uid/user/changeset, node lat/lon
+        ('xml-strict-attribute-never-empty', 4),         # timestamp (node, way, relation), changeset created_at/closed_at, comment date
         ('writer-flush-entry-points', 2),                # Writer::flush, Writer::ensure_cleanup
         ('reader-decompressor-honours-compression', 3),  # make_decompressor: 2 factory calls + DummyDecompressor
         ('writer-compressor-honours-compression', 1),    # Writer constructor
